@@ -30,6 +30,9 @@ CLAIMED = {
  "C02": ("reference-model monitor: real ExactMarginalLogLikelihood / LeaveOneOutPseudoLikelihood values and autograd gradients vs a dense per-batch-element definition; prior-enumeration count monitor; statistical decision on the CG+SLQ path",
          "Runtime monitoring of the real objectives: value and the gradient w.r.t. every raw parameter are compared with [log N(y; mx, Kxx+S) + registered log priors at constrained values]/n built densely (autograd through the dense expression), for Gaussian / fixed-noise (+learned) / Kronecker multitask likelihoods, batch shapes, independent and shared prior instances; LOO against the literal refit-on-all-but-i definition; SumMarginalLogLikelihood = mean of members; the CG+SLQ path by mean of K=24 repetitions within 5 s.e.; anomaly detection during backward. Decides executed cells only.",
          "Reference prior densities are torch.distributions of the documented family; kernels/means are the model's own evaluated eagerly.", "DESIGN.md §4 C02"),
+ "C16": ("finite-ness invariant hooks on the real prediction/MLL/likelihood functions + dense deletion oracle + policy-order history monitor",
+         "Runtime monitoring: while a NaN policy is active every tensor leaving exact_predictive_mean/exact_predictive_covar/ExactMarginalLogLikelihood.forward/expected_log_prob/log_marginal is checked finite (hooks on the real functions); posterior mean, covariance and variance, the un-normalised MLL and the likelihood terms are compared with the dense closed forms on the observed subset (single-output, batched with per-element patterns, Kronecker multitask with per-task patterns; fast_pred_var on/off); the policies are run in every order on one model object and must agree. Decides executed cells only.",
+         "'mask' with batched targets masks the union over batch elements (documented); MLL compared un-normalised; 'fill' for the MLL is documented unsupported.", "DESIGN.md §4 C16"),
 }
 NOT_YET = "check not built yet in this round (see DESIGN.md §9 build order); not claimed until its monitor exists and is silent on the unchanged tree"
 
